@@ -438,6 +438,112 @@ def rule_legacy_crc(ctx, px):
        "compiled legacy writer: the timestamp field is not written exactly for magic 1")
 
 
+def rule_batch_timestamps(ctx, px):
+    R = "record-grammar"
+    # the batch header's first / max timestamp and every record's timestamp delta: the first accepted record sets BOTH (delta 0), later
+    # records are encoded relative to the first and only raise the maximum
+    from ..cfg import CFG
+    from ..rulekit import must_facts
+    for fi, is_px in ((ctx.fn(f"{PYD}._DefaultRecordBatchBuilderPy.append"), False), (px.fn(f"{DEF}.DefaultRecordBatchBuilder._encode_msg"), True)):
+        c = CFG(fi.node, fi.qualname) if is_px else ctx.cfg(fi)
+        facts = must_facts(c)
+
+        def first_fact(fs):
+            return any("_first_timestamp" in a[0] + a[2] and ((a[1] == "is" and "None" in (a[0], a[2])) or (a[1] == "==" and "-1" in (a[0], a[2]))) for a in (fs or ()))
+
+        def later_fact(fs):
+            return any("_first_timestamp" in a[0] + a[2] and ((a[1] == "is not" and "None" in (a[0], a[2])) or (a[1] == "!=" and "-1" in (a[0], a[2]))) for a in (fs or ()))
+        from ..rulekit import atoms_of_test
+        tests = [t for t in c.nodes if t.kind == "test" and "_first_timestamp" in unparse(t.ast)]
+        arm = None
+        if len(tests) == 1:
+            arm = "T" if first_fact(atoms_of_test(tests[0].ast, True)) else ("F" if first_fact(atoms_of_test(tests[0].ast, False)) else None)
+        other = {"T": "F", "F": "T"}.get(arm)
+
+        def in_first(n):
+            return arm is not None and c.dominated_by_branch(tests[0], arm, n)
+
+        def in_later(n):
+            return other is not None and c.dominated_by_branch(tests[0], other, n)
+        st = {k: [n for n in c.nodes if n.kind == "store" and isinstance(n.ast, ast.Attribute) and n.ast.attr == k and unparse(n.ast.value) == "self" and isinstance(n.stmt, ast.Assign)]
+              for k in ("_first_timestamp", "_max_timestamp")}
+        f1 = [n for n in st["_first_timestamp"] if in_first(n) and unparse(n.stmt.value) == "timestamp"]
+        m1 = [n for n in st["_max_timestamp"] if in_first(n) and unparse(n.stmt.value) == "timestamp"]
+        okf = len(st["_first_timestamp"]) == 1 and len(f1) == 1 and len(m1) == 1
+        dl = [n for n in c.nodes if n.kind == "store" and isinstance(n.ast, ast.Name) and n.ast.id == "timestamp_delta" and isinstance(n.stmt, ast.Assign)]
+        d0 = [n for n in dl if unparse(n.stmt.value) == "0" and in_first(n)]
+        dn = [n for n in dl if unparse(n.stmt.value).replace(" ", "") == "timestamp-self._first_timestamp" and in_later(n)]
+        okd = len(dl) == 2 and len(d0) == 1 and len(dn) == 1
+        msg1 = "the first accepted record does not set both the batch's first and max timestamp to its own timestamp (exactly when none was recorded yet)"
+        msg2 = "record timestamps are not encoded as 0 for the first record and timestamp - first_timestamp for the others"
+        if is_px:
+            ob(ctx, R, fi, fi.node.lineno, "first-record-timestamps", okf, msg1)
+            ob(ctx, R, fi, fi.node.lineno, "timestamp-delta", okd, msg2)
+        else:
+            ctx.ob(R, fi, fi.node, okf, msg1, text="first-record-timestamps")
+            ctx.ob(R, fi, fi.node, okd, msg2, text="timestamp-delta")
+
+
+def rule_legacy_iter(ctx, px):
+    R = "legacy-iter"
+    ctx.rep.rule(R, "both v0/v1 readers turn a compressed wrapper into records the same way: inner offsets are relative (made absolute with "
+                    "wrapper offset - last inner offset) exactly for magic > 0 and only when that base is >= 0; the wrapper's timestamp replaces "
+                    "the inner one exactly for LOG_APPEND_TIME; the payload is decompressed once (flag tested before, set after); decided on the "
+                    "guard facts that hold at each of these statements, in the Python and in the compiled reader")
+    from ..cfg import CFG
+    from ..rulekit import must_facts
+
+    def has(facts, pred):
+        return any(pred(a) for a in (facts or ()))
+
+    def magic_pos(a):
+        t = {a[0], a[2]}
+        return ("magic" in a[0] or "magic" in a[2]) and ((a[1] in ("<",) and a[0] == "0") or (a[1] == "<=" and a[0] == "1") or (a[1] == "==" and "1" in t) or (a[1] == "!=" and "0" in t))
+
+    def magic_zero(a):
+        t = {a[0], a[2]}
+        return ("magic" in a[0] or "magic" in a[2]) and ((a[1] == "<=" and a[2] == "0") or (a[1] == "<" and a[2] == "1") or (a[1] == "==" and "0" in t) or (a[1] == "!=" and "1" in t))
+
+    def base_nonneg(a):
+        return ("absolute_base_offset" in (a[0], a[2])) and ((a[1] == "<=" and a[0] == "0") or (a[1] == "<" and a[0] == "-1") or (a[1] == "!=" and "-1" in (a[0], a[2])))
+
+    def log_append(a):
+        return "timestamp_type" in a[0] + a[2] and ((a[1] == "==" and ("LOG_APPEND_TIME" in a[0] + a[2] or "1" in (a[0], a[2]))) or (a[1] == "!=" and "0" in (a[0], a[2])) or a[1] == "truthy")
+
+    for fi, is_px in ((ctx.fn(f"{PYL}._LegacyRecordBatchPy.__iter__"), False), (px.fn(f"{LEG}.LegacyRecordBatch.__iter__"), True)):
+        c = CFG(fi.node, fi.qualname) if is_px else ctx.cfg(fi)
+        facts = must_facts(c)
+
+        def report(node, key, ok, msg):
+            if is_px:
+                ob(ctx, R, fi, getattr(node, "lineno", fi.node.lineno), key, ok, msg)
+            else:
+                ctx.ob(R, fi, node, ok, msg, text=key)
+        base_defs = [n for n in c.nodes if n.kind == "store" and isinstance(n.ast, ast.Name) and n.ast.id == "absolute_base_offset" and isinstance(n.stmt, ast.Assign)]
+        rel = [n for n in base_defs if isinstance(strip_casts(n.stmt.value), ast.BinOp) and isinstance(strip_casts(n.stmt.value).op, ast.Sub)]
+        neg = [n for n in base_defs if unparse(strip_casts(n.stmt.value)) == "-1"]
+        ctx.anchor(len(rel) == 1 and len(neg) == 1, f"absolute_base_offset definitions in {fi.qualname}")
+        report(rel[0], "relative-iff-magic1", has(facts[rel[0]], magic_pos) and has(facts[neg[0]], magic_zero),
+               "inner offsets are not treated as relative exactly for magic > 0 (v0 wrappers carry absolute inner offsets)")
+        txt = unparse(strip_casts(rel[0].stmt.value))
+        report(rel[0], "base-is-wrapper-minus-last", ("self._offset - " in txt) or ("self._main_record.offset - " in txt),
+               f"the base of the relative offsets is `{txt[:60]}`, not the wrapper's offset minus the last inner offset")
+        adds = [n for n in c.nodes if n.kind in ("store", "augstore") and isinstance(n.stmt, ast.AugAssign) and isinstance(n.stmt.op, ast.Add)
+                and unparse(n.stmt.value) == "absolute_base_offset" and unparse(n.stmt.target).endswith("offset")]
+        ctx.anchor(len(adds) >= 1, f"`offset += absolute_base_offset` in {fi.qualname}")
+        report(adds[0], "absolute-iff-base-nonneg", all(has(facts[a_], base_nonneg) for a_ in adds), "the base is added to inner offsets without the `>= 0` guard (a v0 wrapper's -1 would shift every offset)")
+        ts = [n for n in c.nodes if n.kind == "store" and isinstance(n.stmt, ast.Assign) and unparse(n.stmt.targets[0]).split(".")[-1] == "timestamp"
+              and unparse(strip_casts(n.stmt.value)) in ("self._timestamp", "self._main_record.timestamp")]
+        ctx.anchor(len(ts) == 1, f"wrapper timestamp override in {fi.qualname}")
+        report(ts[0], "timestamp-iff-log-append", has(facts[ts[0]], log_append), "the wrapper's timestamp replaces the inner one under something other than LOG_APPEND_TIME")
+        dec = [n for n in c.nodes if n.kind == "call" and call_attr(n.ast) == "_decompress"]
+        flag = [n for n in c.nodes if n.kind == "store" and isinstance(n.ast, ast.Attribute) and n.ast.attr == "_decompressed"]
+        okd = len(dec) == 1 and len(flag) == 1 and c.path_exists(dec[0], flag[0], exc=False) and \
+            has(facts[dec[0]], lambda a: "_decompressed" in a[0] and (a[1] == "falsy" or (a[1] == "==" and a[2] in ("0", "False")))) and \
+            has(facts[dec[0]], lambda a: ("compression" in a[0]) and a[1] == "truthy")
+        report(dec[0] if dec else fi.node, "decompress-once", okd, "the payload is not decompressed exactly once, under `compressed and not yet decompressed`, with the flag set afterwards")
+
+
 def _names(e):
     return {x.id for x in ast.walk(e) if isinstance(x, ast.Name)}
 
@@ -480,6 +586,14 @@ def rule_reader_result(ctx, px):
         report(rets[0], "timestamp-from-delta", len(d) == 2 and any(t == "self.max_timestamp" for t in txt) and
                any(isinstance(x.value, ast.BinOp) and isinstance(x.value.op, ast.Add) and "self.first_timestamp" in unparse(x.value) and var[2] in _names(x.value) for x in d),
                f"the record's timestamp is not max_timestamp (log-append time) / first_timestamp + the timestamp-delta varint ({txt})")
+        # ... and which arm is which: max_timestamp is the record's timestamp exactly for LOG_APPEND_TIME batches
+        from ..cfg import CFG as _CFG
+        from ..rulekit import must_facts as _mf
+        cc_ = _CFG(fi.node, fi.qualname) if is_px else ctx.cfg(fi)
+        mx = [n_ for n_ in cc_.nodes if n_.kind == "store" and isinstance(n_.ast, ast.Name) and n_.ast.id == n_ts and isinstance(n_.stmt, ast.Assign) and unparse(n_.stmt.value) == "self.max_timestamp"]
+        okp = len(mx) == 1 and any(("LOG_APPEND_TIME" in a[0] + a[2] and a[1] == "==") or (a[1] == "truthy" and "attributes &" in a[0]) or
+                                   ("timestamp_type" in a[0] + a[2] and ((a[1] == "==" and "1" in (a[0], a[2])) or (a[1] == "!=" and "0" in (a[0], a[2])))) for a in (_mf(cc_)[mx[0]] or ()))
+        report(rets[0], "timestamp-polarity", okp, "max_timestamp is not used exactly for LOG_APPEND_TIME batches (CreateTime records would all get the batch's max timestamp, or the reverse)")
         # key / value: data arm reads the length given by the 5th / 6th varint
         for nm, lv, what in ((n_key, var[4], "key"), (n_val, var[5], "value")):
             d = [x for x in defs_of(nm) if not (isinstance(x.value, ast.Constant) and x.value.value is None)]
@@ -547,6 +661,17 @@ def rule_crc_order(ctx, px):
             ob(ctx, R, fi, fi.node.lineno, "build-order", ok, "build(): header not written after compression / buffer not trimmed to the batch end")
         else:
             ctx.ob(R, fi, fi.node, ok, "build(): header not written after compression", text="build-order")
+            # the header's codec bits describe what _maybe_compress DID (it leaves the records raw when compression does not shrink them)
+            okf = False
+            if ok:
+                a0 = arg_of(wh[0].ast, 0, kw="use_compression_type") if True else None
+                src = a0
+                if isinstance(a0, ast.Name):
+                    ds = [d for d in local_defs(c, a0.id)]
+                    src = def_value(ds[0]) if len(ds) == 1 else None
+                okf = isinstance(src, ast.Call) and call_attr(src) == "_maybe_compress"
+            ctx.ob(R, fi, fi.node, okf, "build(): _write_header is not told whether the records were actually compressed (its default writes the configured codec into the "
+                                        "attributes even when _maybe_compress left them raw: readers then decompress raw bytes)", text="header-codec-from-compress-result")
 
 
 def _single_def(fn, name):
@@ -1306,6 +1431,8 @@ def run(ctx):
     rule_reader_result(ctx, px)
     rule_crc_order(ctx, px)
     rule_legacy_crc(ctx, px)
+    rule_legacy_iter(ctx, px)
+    rule_batch_timestamps(ctx, px)
     rule_splitter(ctx, px)
     rule_crc_table(ctx)
     rule_refuse_pure(ctx, px)
@@ -1316,6 +1443,8 @@ def run(ctx):
     rule_gzip_members(ctx)
     rule_size_accounting(ctx, px)
     rule_null_is_none(ctx, px)
+    from .common import rule_instance_state
+    rule_instance_state(ctx, ("aiokafka.record.",))
     rep.nd("value-level round-trip for all record sequences (varint arithmetic, timestamps beyond int32 deltas, compression codecs)")
     rep.nd("byte-identical output of the two builders (they differ by design at the batch-size boundary and in the compression fallback)")
     rep.nd("the fixed parts of size accounting (record overhead constants, estimate slack)")
